@@ -5,10 +5,10 @@ import (
 	"fmt"
 	"os"
 	"os/exec"
-	"sync"
 	"path/filepath"
 	"regexp"
 	"strings"
+	"sync"
 
 	goose "github.com/goose-lang/goose"
 	"github.com/pkg/errors"
